@@ -438,6 +438,8 @@ class Engine:
             return T(("bytes", tuple(c["val"])))
         if k == "zst":
             return T(("zst", self.prog.types[c["ty"]]["s"]))
+        if k == "promoted":
+            return T(("const", "%s::promoted[%d]" % (c["def"], c["index"])))
         if k == "scalar":
             return ICONST(int(c["val"]))
         return T(("const", c.get("repr", "?")))
@@ -446,8 +448,17 @@ class Engine:
         """-> (subtree dict, type idx)"""
         if "const" in op:
             c = op["const"]
+            if c.get("kind") == "promoted":
+                sub = self.eval_promoted(st, c)
+                if sub is not None:
+                    return sub, c["ty"]
             v = self.const_value(c)
             sub = {(): v}
+            if v[0] == "t" and v[1][0] == "const" and self.prog.types[c["ty"]]["s"] == "std::time::Duration":
+                # constant Duration (named const of the crate): keep its whole seconds as a ghost
+                secs = self.const_duration_secs(v[1][1])
+                if secs is not None:
+                    sub[("$secs",)] = ICONST(secs)
             if v[0] == "t" and v[1][0] == "str":
                 sub = {(): ("r", ("K", v[1]), (), False)}
             elif v[0] == "t" and v[1][0] == "bytes":
@@ -456,6 +467,43 @@ class Engine:
         p = op.get("copy") or op.get("move")
         root, path, ti = self.resolve(st, fr, p)
         return self.subtree(st, root, path, ti), ti
+
+    def eval_promoted(self, st, c):
+        """value of a promoted constant: its (straight-line) MIR body is interpreted into a dedicated frame"""
+        key = "%s::promoted[%d]" % (c["def"], c["index"])
+        body = self.prog.bodies.get(key)
+        if body is None:
+            return None
+        fid = (("promoted", key),)
+        if ("L", fid, 0) not in st.store:
+            fr = Frame(fid, body, {}, 0, "const")
+            self.frame_bodies[fid] = body
+            rec = self.record
+            self.record = False
+            hooks = (self.call_hooks, self.post_call_hooks, self.edge_hooks)
+            self.call_hooks, self.post_call_hooks, self.edge_hooks = [], [], []
+            try:
+                exits, _ = self.exec_blocks(fr, 0, st, None, None)
+            finally:
+                self.record = rec
+                self.call_hooks, self.post_call_hooks, self.edge_hooks = hooks
+            rets = [s2 for (tg, s2) in exits if tg == "return"]
+            if len(rets) != 1 or rets[0] is not st:
+                return None
+        return self.subtree(st, ("L", fid, 0), (), body.local_ty(0))
+
+    def const_duration_secs(self, repr_):
+        import re as _re
+        m = _re.search(r"secs: (\d+)_u64", repr_)
+        if m:
+            return int(m.group(1))
+        # a named constant: look its evaluated value up
+        for k, c in self.prog.consts.items():
+            if k.split("::", 1)[-1] == repr_ or k.endswith("::" + repr_.split("::")[-1]) and repr_.split("::")[0] in k:
+                m = _re.search(r"secs: (\d+)_u64", c.get("repr", ""))
+                if m:
+                    return int(m.group(1))
+        return None
 
     def eval_operand(self, st, fr, op):
         """scalar view: value at the node (aggregates give their () entry or an 'agg' marker)"""
